@@ -165,15 +165,15 @@ def c06(tier):
     # interrupts; generated transformers (nested ellipses, tails after ellipses, improper and vector patterns,
     # templates that are rejected or must be rejected) and their uses run in watched worker processes
     # (harness synrules gen); a panic or a time-out of definition or use is a violation of totality
-    nmac = 300 if q else 20000
+    nmac = 2400 if q else 40000
     mout = os.path.join(wd, 'macros.ndjson')
-    pm = vlib.harness(['synrules', 'gen', 'seed=%d' % (vlib.seed() + 77), 'count=%d' % nmac, 'out=' + mout, 'timeout_ms=3000'],
+    pm = vlib.harness(['synrules', 'gen', 'seed=%d' % (vlib.seed() * 1000 + 1), 'count=%d' % nmac, 'out=' + mout, 'timeout_ms=5000'],
                       check=False, timeout=3000)
     macro_bad = 0
     macro_n = 0
     if pm.returncode != 0:
         verdict.violation(['C06/macro-expansion/abort'], 'the harness died while defining and using generated macros (rc=%s)' % pm.returncode,
-                          {'kind': 'macros', 'seed': vlib.seed() + 77, 'count': nmac})
+                          {'kind': 'macros', 'seed': vlib.seed() * 1000 + 1, 'count': nmac})
     else:
         seen_m = set()
         for l in open(mout):
